@@ -42,7 +42,10 @@ func Parse(p string) ([]tok, class) {
 		c := p[i]
 		switch c {
 		case '*':
-			toks = append(toks, tok{kind: tAny})
+			// consecutive stars are one star (keeps the reference's backtracking polynomial in them)
+			if len(toks) == 0 || toks[len(toks)-1].kind != tAny {
+				toks = append(toks, tok{kind: tAny})
+			}
 			i++
 		case '?':
 			toks = append(toks, tok{kind: tOne})
